@@ -7,5 +7,6 @@ CONSTANTS
   MaxLen = 2
   Waits <- W00
   Groups <- G2
+  SampledGroups = {}
 INVARIANTS TypeOK BarrierOrder CountersExact Rules EndAfterMemory CompletionOnce NoHang
 CHECK_DEADLOCK FALSE
